@@ -130,8 +130,16 @@ claim("C15",
       TRUST + "; cryptographic primitives are idealised", "symbolic execution of vmx.py over idealised cryptography + z3",
       "4.15")
 
+claim("C14",
+      "QCOW2: the real constructor and _read_extensions run on a symbolic header-extension area (<= 3 extensions of symbolic type "
+      "and length, with and without a backing-file name ending the area) and QCow2.snapshots/QCow2Snapshot on a symbolic "
+      "snapshot table (<= 2 entries); z3 shows every exposed attribute (backing format, feature table, data-file name, unknown "
+      "extensions, backing-file name, snapshot offsets/L1 fields/id/name) denotes exactly the file range the specification "
+      "locates; witnesses replayed through the real classes. Sizes are covered in C01-C06, the Hyper-V header sequence rule in C12.",
+      TRUST, "symbolic execution of the metadata parsers + z3 (attributes as (codec, file range) terms)", "4.14")
+
 PENDING = "check not built yet in this round (planned: see DESIGN.md section 4)"
-for _p in ("C14", "C17"):
+for _p in ("C17",):
     NOT_APPLICABLE[_p] = PENDING
 NOT_APPLICABLE["C16"] = ("the property's content (cstruct writers, AES-GCM, PBKDF2) sits behind C boundaries that would have "
                          "to be stubbed; nothing of the repository's own arithmetic would remain to be decided (DESIGN 5)")
